@@ -114,17 +114,20 @@ func (c *Cluster) newLeader(snap []byte, from int) {
 	if c.StreamPub != nil && c.Leaders > 1 {
 		panic("a cluster wired to a real event publisher cannot fail over")
 	}
-	c.L = NewReplicaPub(fmt.Sprintf("leader%d", c.Leaders), c.GCTTL, c.GCGran, c.StreamPub)
+	// (readers that ask for the leader's state - parked blocking queries re-evaluating - see the new store only
+	// once it has caught up: a server does not serve reads while it replays its log)
+	nl := NewReplicaPub(fmt.Sprintf("leader%d", c.Leaders), c.GCTTL, c.GCGran, c.StreamPub)
 	if snap != nil {
-		if err := c.L.Restore(snap); err != nil {
+		if err := nl.Restore(snap); err != nil {
 			panic("leader restore from its own completed snapshot failed: " + err.Error())
 		}
 	}
 	for _, e := range c.Log[from:] {
-		if _, perr := c.L.Apply(e); perr != nil {
+		if _, perr := nl.Apply(e); perr != nil {
 			c.Fatal = perr
 		}
 	}
+	c.L = nl
 	c.L.GC.SetEnabled(true)
 	c.Shell = consul.VerifNewShell(c.ShellCfg, c.L.FSM, c.L.GC, &consul.VerifHooks{RaftApply: c.hookRaftApply, IsLeader: func() bool { return true }, RPC: c.RPCHook})
 	if err := consul.VerifInitializeSessionTimers(c.Shell); err != nil {
@@ -577,7 +580,6 @@ func (c *Cluster) failover() {
 func describeResp(v any) string {
 	return strings.TrimSpace(simkit.Trunc(CanonResult(v), 300))
 }
-
 
 const aclAdminSecret = "5ec4e700-0000-4000-8000-0000000000ad"
 
